@@ -72,8 +72,15 @@ def scenario(rng, S, M, hashmode, nsweeps):
 def run_scenario(exe, lines, timeout=900):
     env = dict(os.environ)
     env["ASAN_OPTIONS"] = "detect_leaks=0:abort_on_error=0:exitcode=77"
-    rc, out, dt = C.sh([exe], input="\n".join(lines) + "\n", timeout=timeout, env=env)
-    return rc, out.splitlines(), dt
+    import subprocess
+    import time
+    t0 = time.time()
+    p = subprocess.run([exe], input="\n".join(lines) + "\n", env=env, stdout=subprocess.PIPE, stderr=subprocess.PIPE,
+                       timeout=timeout, universal_newlines=True, errors="replace")
+    res = p.stdout.splitlines()
+    if p.returncode != 0:
+        res.append("STDERR: " + p.stderr[-1200:].replace("\n", " | "))
+    return p.returncode, res, time.time() - t0
 
 
 def classify(line_in, line_out):
@@ -88,7 +95,8 @@ def classify(line_in, line_out):
         return props, msg
     if line_out.startswith("scan BAD") or line_out.startswith("destroy BAD") or line_out.startswith("oldfreed BAD"):
         return {"C08"} | ({"C07"} if "stored twice" in line_out or "size()" in line_out else set()), line_out
-    if line_out.startswith("err") and line_in.split()[0] not in ("upsthrow",) and "eqthrow" not in line_out:
+    if line_out.startswith("err") and line_in.split()[0] not in ("upsthrow",) and "eqthrow" not in line_out \
+            and line_out not in ("err lftl", "err maxhp", "err invalid"):
         # no fault was armed for plain requests
         return {"C07"}, "unexpected exception on a plain request: " + line_out
     return None
